@@ -1232,6 +1232,7 @@ LAYOUTS = {
     'remarks': 'remarks',                              # several lines, comments holding every character of ODD_CHARACTERS
     'stairs': 'stairs',                                # a line per statement / elif / else, every line one column further left
     'climb': 'climb',                                  # ... one column further right
+    'stairs-remarks': 'stairs-remarks',                # stairs, every line ending in a // comment
 }
 # Characters str.splitlines() (and \s, and some editors) take as line boundaries although they are none in OAL, where a
 # line ends in "\n" only: form feed, vertical tab, FS, GS, RS, NEL, LINE and PARAGRAPH SEPARATOR -- and a lone carriage
@@ -1275,6 +1276,11 @@ def layout_of(printed, name):
         return oalast.Layout(gaps=gaps, lead='/*\x85\x0c*/ /* \x0b */\n', trail=' /*\x0c*/')
     if name == 'joined':
         return joined_layout(printed)
+    if name == 'stairs-remarks':
+        # stairs, every line ending in a "//" comment (a token that ends with its line break)
+        base = layout_of(printed, 'stairs')
+        gaps = dict((i, ' // ends the line' + g if k % 3 else ' //' + g) for k, (i, g) in enumerate(sorted(base.gaps.items())))
+        return oalast.Layout(gaps=gaps, lead='// head\n' + ' ' * 14)
     if name in ('stairs', 'climb'):
         # every statement and every elif / else clause on a line of its own, each line indented one column less (stairs)
         # or one column more (climb) than the line before: a later clause starts in a smaller (larger) column
